@@ -46,7 +46,9 @@ type apiT struct {
 
 var pipeAPI = apiT{
 	name: "pipe", Join: pipe.Join[int], Throttling: pipe.Throttling[int], Seq: pipe.Seq[int], ToSeq: pipe.ToSeq[int], Take: pipe.Take[int], StdErr: pipe.StdErr[int],
-	TakeWhile: func(ctx context.Context, in <-chan int, f func(int) bool) <-chan int { return pipe.TakeWhile(ctx, in, pipe.Pure(f)) },
+	TakeWhile: func(ctx context.Context, in <-chan int, f func(int) bool) <-chan int {
+		return pipe.TakeWhile(ctx, in, pipe.Pure(f))
+	},
 	Emit: func(ctx context.Context, cap int, tick time.Duration, mode string, f func(int) (int, error)) (<-chan int, <-chan error) {
 		return pipe.Emit(ctx, cap, tick, pipeF(mode, f))
 	},
@@ -57,7 +59,9 @@ var pipeAPI = apiT{
 
 var forkAPI = apiT{
 	name: "fork", Join: fork.Join[int], Throttling: fork.Throttling[int], Seq: fork.Seq[int], ToSeq: fork.ToSeq[int], Take: fork.Take[int], StdErr: fork.StdErr[int],
-	TakeWhile: func(ctx context.Context, in <-chan int, f func(int) bool) <-chan int { return fork.TakeWhile(ctx, in, fork.Pure(f)) },
+	TakeWhile: func(ctx context.Context, in <-chan int, f func(int) bool) <-chan int {
+		return fork.TakeWhile(ctx, in, fork.Pure(f))
+	},
 	Emit: func(ctx context.Context, cap int, tick time.Duration, mode string, f func(int) (int, error)) (<-chan int, <-chan error) {
 		return fork.Emit(ctx, cap, tick, forkF(mode, f))
 	},
@@ -866,6 +870,7 @@ func init() {
 }
 
 func progsC12(t *testing.T) {
+	progsJoinBulky(t, "C12")
 	progsJoinCancel(t, "C12")
 	progsHuge(t, "C12")
 	progsC12Shared(t)
